@@ -3,7 +3,10 @@
 //! Model-independent oracle on the real code: a varied set of value *recipes* (packing graphs that overflow and
 //! get spaces / duplicated subgraphs; a "tie family" in which several equally distant roots of one 32-bit space are
 //! duplicated in one isolation step and share descendants over paths of unequal length, so that the relative ids of
-//! the copies decide the layout; GPOS / GSUB built with the layout builders, big enough for extension
+//! the copies decide the layout; a "ties" family with 2..8 EXACTLY tied candidates wherever the compile path sorts or
+//! picks a maximum (shared point numbers in gvar, extension-promotion candidates of identical shape, several
+//! subtables of one lookup that all have to be split, equally used IVS regions, identical lookups / features /
+//! coverage / name strings); GPOS / GSUB built with the layout builders, big enough for extension
 //! promotion and subtable splitting; gvar with shared tuples; item variation stores; ClassDefs; IUP; whole fonts via
 //! FontBuilder; klippa subsets of the test fonts) is compiled
 //!   (a) twice in a row,
@@ -97,7 +100,7 @@ fn first_diff(a: &[u8], b: &[u8]) -> String {
 // ------------------------------------------------------------------------------------------------
 // recipes: (kind, seed) -> bytes.  Everything random derives from the seed; nothing from the environment.
 
-const KINDS: [&str; 14] = ["mock", "gpos", "gsub", "gvar", "ivs", "classdef", "iup", "font", "subset", "mockbig", "spacefam", "tiefam", "pairfam", "dates"];
+const KINDS: [&str; 15] = ["mock", "gpos", "gsub", "gvar", "ivs", "classdef", "iup", "font", "subset", "mockbig", "spacefam", "tiefam", "pairfam", "dates", "ties"];
 
 #[derive(Clone, Debug)]
 struct Recipe {
@@ -107,6 +110,9 @@ struct Recipe {
 
 impl Recipe {
     fn show(&self) -> String {
+        if self.kind == "ties" {
+            return format!("recipe kind={} seed={} {}", self.kind, self.seed, ties_family(self.seed, &mut Rng::new(self.seed), false).0);
+        }
         if self.kind == "dates" {
             return format!("recipe kind={} seed={} {}", self.kind, self.seed, dates_plan(self.seed, &mut Rng::new(self.seed)).describe());
         }
@@ -125,7 +131,7 @@ impl Recipe {
 }
 
 fn recipes(cfg_seed: u64, thorough: bool) -> Vec<Recipe> {
-    let per_kind: &[(usize, usize)] = &[(120, 1200), (40, 300), (30, 200), (40, 300), (40, 300), (50, 400), (30, 300), (20, 150), (40, 300), (60, 500), (120, 1000), (100, 800), (60, 500), (48, 240)];
+    let per_kind: &[(usize, usize)] = &[(120, 1200), (40, 300), (30, 200), (40, 300), (40, 300), (50, 400), (30, 300), (20, 150), (40, 300), (60, 500), (120, 1000), (100, 800), (60, 500), (48, 240), (60, 480)];
     let mut out = vec![];
     for (k, kind) in KINDS.iter().enumerate() {
         let n = if thorough { per_kind[k].1 } else { per_kind[k].0 };
@@ -154,6 +160,7 @@ fn compile_inner(r: &Recipe) -> Vec<u8> {
         "tiefam" => tie_family(&mut rng),
         "pairfam" => pair_family(&mut rng),
         "dates" => dates_family(r.seed, &mut rng),
+        "ties" => ties_family(r.seed, &mut rng, true).1,
         "gpos" => gpos(&mut rng),
         "gsub" => gsub(&mut rng),
         "gvar" => gvar(&mut rng),
@@ -1004,6 +1011,229 @@ fn buffer_reuse(s: &mut Session, rng: &mut Rng, thorough: bool) {
     }
 }
 
+// ---- "ties": inputs with 2..8 EXACTLY tied candidates wherever the compile path sorts / picks a maximum -----------
+
+const TIE_FAMILIES: [&str; 6] = ["gvar-point-sets", "gpos-promotion", "gpos-split", "ivs-regions", "identical-content", "gsub-promotion"];
+
+/// `n_sets` pair sets of `n_recs` records each (x-advance only) over the glyphs from `first`: ~ n_sets * n_recs * 4 bytes
+fn tie_pair_pos(first: u16, n_sets: u16, n_recs: u16) -> write_fonts::tables::gpos::PairPos {
+    use write_fonts::tables::gpos as wg;
+    let glyphs = first..first + n_sets;
+    let coverage: CoverageTable = glyphs.clone().map(GlyphId16::new).collect();
+    let pair_sets = glyphs
+        .map(|id| {
+            let v = wg::ValueRecord::new().with_x_advance(id as i16);
+            wg::PairSet::new((id..id + n_recs).map(|id2| wg::PairValueRecord::new(GlyphId16::new(id2), v.clone(), wg::ValueRecord::default())).collect())
+        })
+        .collect::<Vec<_>>();
+    wg::PairPos::format_1(coverage, pair_sets)
+}
+
+/// Returns (description of the input, compiled bytes); with `build == false` only the description (same draws).
+fn ties_family(seed: u64, rng: &mut Rng, build: bool) -> (String, Vec<u8>) {
+    use write_fonts::tables::{gpos as wg, gsub as ws, layout as wl};
+    let family = (seed % 100_000) as usize % TIE_FAMILIES.len();
+    let name = TIE_FAMILIES[family];
+    match family {
+        // gvar: per glyph k disjoint point sets of equal size (equal packed size), each used by c tuples: every
+        // candidate for the glyph's shared point numbers saves exactly the same number of bytes
+        0 => {
+            let axes = 3usize;
+            let n_glyphs = rng.range(1, 4) as u32;
+            let mut desc = format!("{name}: {axes} axes;");
+            let mut vars = vec![GlyphVariations::new(GlyphId::new(0), vec![])];
+            for g in 1..=n_glyphs {
+                let k = rng.range(2, 8) as usize;
+                let m = rng.range(1, 4) as usize;
+                let n_pts = k * m + rng.range(1, 12) as usize;
+                let c = rng.range(2, 3) as usize;
+                let mut idx: Vec<usize> = (0..n_pts).collect();
+                rng.shuffle(&mut idx);
+                let sets: Vec<Vec<usize>> = (0..k).map(|i| { let mut v = idx[i * m..(i + 1) * m].to_vec(); v.sort(); v }).collect();
+                // k*c tuples with distinct peaks, in grouped / interleaved / shuffled order
+                let mut peaks: Vec<[i64; 3]> = vec![];
+                for a in [-16384i64, -8192, 8192, 16384] {
+                    for b in [-16384i64, -8192, 8192, 16384] {
+                        for cc in [-16384i64, 8192] {
+                            peaks.push([a, b, cc]);
+                        }
+                    }
+                }
+                rng.shuffle(&mut peaks);
+                let mut uses: Vec<usize> = match rng.below(3) {
+                    0 => (0..k).flat_map(|i| std::iter::repeat(i).take(c)).collect(),
+                    _ => (0..c).flat_map(|_| 0..k).collect(),
+                };
+                let order = rng.below(3);
+                if order == 2 {
+                    rng.shuffle(&mut uses);
+                }
+                desc.push_str(&format!(" glyph {g}: {n_pts} points, {k} point sets {sets:?} used {c}x each in tuple order {uses:?};"));
+                let deltas: Vec<GlyphDeltas> = uses
+                    .iter()
+                    .enumerate()
+                    .map(|(t, &set)| {
+                        let tents: Vec<Tent> = peaks[t].iter().map(|p| Tent::new(f2(*p), None)).collect();
+                        let (dx, dy) = (rng.range(1, 60) as i16, rng.range(-60, -1) as i16);
+                        let ds: Vec<GlyphDelta> = (0..n_pts)
+                            .map(|i| if sets[set].contains(&i) { GlyphDelta::required(dx + i as i16, dy - i as i16) } else { GlyphDelta::optional(0, 0) })
+                            .collect();
+                        GlyphDeltas::new(tents, ds)
+                    })
+                    .collect();
+                vars.push(GlyphVariations::new(GlyphId::new(g), deltas));
+            }
+            if !build {
+                return (desc, vec![]);
+            }
+            let bytes = match Gvar::new(vars, axes as u16) {
+                Ok(t) => res(dump_table(&t)),
+                Err(e) => format!("ERR:{e:?}").into_bytes(),
+            };
+            (desc, bytes)
+        }
+        // GPOS / GSUB: k lookups of identical shape (same size, same subtable count => the same subtables-per-byte
+        // ratio), together too big for 16-bit offsets: only some of them can stay non-extension lookups
+        1 | 5 => {
+            let (a, b) = if family == 1 { (rng.range(18, 22) as u16, rng.range(140, 165) as u16) } else { (rng.range(50, 70) as u16, rng.range(90, 110) as u16) };
+            let size = if family == 1 { a as usize * b as usize * 4 } else { a as usize * b as usize * 2 };
+            let k = (rng.range(2, 8) as usize).max(75_000usize.div_ceil(size)).min(9);
+            let extra = rng.chance(1, 3);
+            let desc = format!(
+                "{name}: {k} lookups of identical shape ({}), glyph ranges starting at 1 + 300*i{}",
+                if family == 1 { format!("one PairPosFormat1 subtable, {a} pair sets x {b} records, x-advance only") } else { format!("one AlternateSubst subtable, {a} alternate sets x {b} glyphs") },
+                if extra { ", plus one small lookup of another shape at the end" } else { "" }
+            );
+            if !build {
+                return (desc, vec![]);
+            }
+            if family == 1 {
+                let mut lookups: Vec<wg::PositionLookup> =
+                    (0..k as u16).map(|i| wg::PositionLookup::Pair(wl::Lookup::new(LookupFlag::empty(), vec![tie_pair_pos(1 + 300 * i, a, b)]))).collect();
+                if extra {
+                    lookups.push(wg::PositionLookup::Pair(wl::Lookup::new(LookupFlag::empty(), vec![tie_pair_pos(5000, 3, 7)])));
+                }
+                (desc, res(dump_table(&Gpos::new(ScriptList::default(), FeatureList::default(), LookupList::new(lookups)))))
+            } else {
+                let alt = |first: u16, a: u16, b: u16| {
+                    let cov: CoverageTable = (first..first + a).map(GlyphId16::new).collect();
+                    let sets = (first..first + a).map(|g| ws::AlternateSet::new((g + 1..g + 1 + b).map(GlyphId16::new).collect())).collect();
+                    ws::AlternateSubstFormat1::new(cov, sets)
+                };
+                let mut lookups: Vec<SubstitutionLookup> =
+                    (0..k as u16).map(|i| SubstitutionLookup::Alternate(wl::Lookup::new(LookupFlag::empty(), vec![alt(1 + 300 * i, a, b)]))).collect();
+                if extra {
+                    lookups.push(SubstitutionLookup::Alternate(wl::Lookup::new(LookupFlag::empty(), vec![alt(5000, 3, 7)])));
+                }
+                (desc, res(dump_table(&Gsub::new(ScriptList::default(), FeatureList::default(), LookupList::new(lookups)))))
+            }
+        }
+        // GPOS: ONE lookup with k >= 2 subtables of identical size that each have to be split
+        2 => {
+            let k = *rng.pick(&[2usize, 2, 3]);
+            let a = rng.range(105, 112) as u16;
+            let small_first = rng.chance(1, 3);
+            let desc = format!("{name}: one Pair lookup with {k} PairPosFormat1 subtables of {a} pair sets x 165 records each (> 64 KiB each), glyph ranges starting at 1 + 1000*i{}", if small_first { ", preceded by a small Pair lookup" } else { "" });
+            if !build {
+                return (desc, vec![]);
+            }
+            let subtables: Vec<wg::PairPos> = (0..k as u16).map(|i| tie_pair_pos(1 + 1000 * i, a, 165)).collect();
+            let mut lookups = vec![];
+            if small_first {
+                lookups.push(wg::PositionLookup::Pair(wl::Lookup::new(LookupFlag::empty(), vec![tie_pair_pos(7000, 2, 5)])));
+            }
+            lookups.push(wg::PositionLookup::Pair(wl::Lookup::new(LookupFlag::empty(), subtables)));
+            (desc, res(dump_table(&Gpos::new(ScriptList::default(), FeatureList::default(), LookupList::new(lookups)))))
+        }
+        // item variation store: k regions used equally often by delta sets of the same shape and magnitude
+        3 => {
+            let axes = 2usize;
+            let k = rng.range(2, 8) as usize;
+            let c = rng.range(1, 4) as usize;
+            let pairs = rng.chance(1, 2);
+            let mag = *rng.pick(&[5i64, 100, 300, 40_000]);
+            let desc = format!("{name}: {axes} axes, {k} regions, each used by {c} delta sets{} with deltas of magnitude <= {mag}, insertion order shuffled", if pairs { " and by one two-region delta set with its neighbour" } else { "" });
+            if !build {
+                return (desc, vec![]);
+            }
+            let peaks = [16384i64, -16384, 8192, -8192, 4096, -4096, 12288, -12288];
+            let regions: Vec<VariationRegion> = (0..k)
+                .map(|i| {
+                    VariationRegion::new(
+                        (0..axes)
+                            .map(|ax| {
+                                let p = peaks[(i + ax * 3) % 8];
+                                let (s0, e0) = if p > 0 { (0, 16384) } else { (-16384, 0) };
+                                RegionAxisCoordinates::new(f2(s0), f2(p), f2(e0))
+                            })
+                            .collect(),
+                    )
+                })
+                .collect();
+            let mut sets: Vec<Vec<(VariationRegion, i32)>> = vec![];
+            for i in 0..k {
+                for j in 0..c {
+                    sets.push(vec![(regions[i].clone(), (mag - j as i64 - 1) as i32)]);
+                }
+                if pairs {
+                    sets.push(vec![(regions[i].clone(), mag as i32 - 1), (regions[(i + 1) % k].clone(), -(mag as i32) + 1)]);
+                }
+            }
+            rng.shuffle(&mut sets);
+            let mut b = VariationStoreBuilder::new(axes as u16);
+            let ids: Vec<_> = sets.into_iter().map(|ds| b.add_deltas(ds)).collect();
+            let (store, remap) = b.build();
+            let mut out = res(dump_table(&store));
+            for id in ids {
+                match remap.get(id) {
+                    Some(v) => {
+                        out.extend_from_slice(&v.delta_set_outer_index.to_be_bytes());
+                        out.extend_from_slice(&v.delta_set_inner_index.to_be_bytes());
+                    }
+                    None => out.extend_from_slice(b"none"),
+                }
+            }
+            (desc, out)
+        }
+        // identical content: k lookups / features / coverage tables / name strings that are equal byte for byte
+        _ => {
+            let k = rng.range(2, 8) as usize;
+            let n = rng.range(3, 60) as u16;
+            let desc = format!("{name}: GSUB with {k} identical SingleSubst lookups ({n} glyphs, delta 7) + {k} lookups over the same coverage with other deltas, {k} features with the same lookup list, {k} scripts with the same LangSys; name table with {k} records sharing one string; ClassDef of {k} equal-sized classes");
+            if !build {
+                return (desc, vec![]);
+            }
+            let cov = || -> CoverageTable { (10..10 + n).map(GlyphId16::new).collect() };
+            let mut lookups: Vec<SubstitutionLookup> = vec![];
+            for _ in 0..k {
+                lookups.push(SubstitutionLookup::Single(wl::Lookup::new(LookupFlag::empty(), vec![ws::SingleSubst::format_1(cov(), 7)])));
+            }
+            for i in 0..k {
+                lookups.push(SubstitutionLookup::Single(wl::Lookup::new(LookupFlag::empty(), vec![ws::SingleSubst::format_1(cov(), 100 + i as i16)])));
+            }
+            let n_lookups = lookups.len() as u16;
+            let tags = [b"aalt", b"calt", b"liga", b"ss01", b"ss02", b"ss03", b"ss04", b"ss05"];
+            let features: Vec<wl::FeatureRecord> = (0..k).map(|i| wl::FeatureRecord::new(Tag::new(tags[i]), wl::Feature::new(None, (0..n_lookups).collect()))).collect();
+            let stags = [b"DFLT", b"arab", b"cyrl", b"grek", b"hebr", b"latn", b"thai", b"zzzz"];
+            let scripts: Vec<wl::ScriptRecord> =
+                (0..k).map(|i| wl::ScriptRecord::new(Tag::new(stags[i]), wl::Script::new(Some(wl::LangSys::new((0..k as u16).collect())), vec![]))).collect();
+            let gsub = Gsub::new(ScriptList::new(scripts), FeatureList::new(features), LookupList::new(lookups));
+            let mut out = res(dump_table(&gsub));
+            let records: Vec<write_fonts::tables::name::NameRecord> =
+                (0..k).map(|i| write_fonts::tables::name::NameRecord::new(3, 1, 0x409, font_types::NameId::new(256 + i as u16), "the same string".to_string().into())).collect();
+            out.extend(res(dump_table(&write_fonts::tables::name::Name::new(records))));
+            let mut cd = ClassDefBuilder::new();
+            let mut classes: Vec<IntSet<GlyphId16>> = (0..k as u16).map(|i| (100 + i * 10..100 + i * 10 + 3).map(GlyphId16::new).collect()).collect();
+            rng.shuffle(&mut classes);
+            for c in classes {
+                cd.checked_add(c);
+            }
+            out.extend(res(dump_table(&cd.build())));
+            (desc, out)
+        }
+    }
+}
+
 fn mock_graph(rng: &mut Rng, big: bool) -> Vec<u8> {
     let (specs, root) = mock_spec(rng, big);
     let mut g = VGraph::new(&specs, root);
@@ -1748,6 +1978,10 @@ fn run(cfg: &Config, s: &mut Session) {
         }
     }
     let base_sig: Vec<String> = base.iter().map(|b| sig(b)).collect();
+    for (r, b) in rs.iter().zip(&base).filter(|(r, _)| r.kind == "ties") {
+        let fam = TIE_FAMILIES[(r.seed % 100_000) as usize % TIE_FAMILIES.len()];
+        s.count(&format!("ties:{fam}:{}", if b.starts_with(b"ERR:") || b.starts_with(b"PANIC:") { "err" } else if b.len() > 65535 { "bytes>64K" } else { "bytes" }));
+    }
     for r in rs.iter().filter(|r| r.kind == "dates") {
         let p = dates_plan(r.seed, &mut Rng::new(r.seed));
         s.count(&format!(
